@@ -111,12 +111,20 @@ func (u *Unit) Run() {
 	if results == nil {
 		penv.results = []Val{}
 	}
+	u.applyGhostSets(ct, penv, exit)
 	for i, e := range ct.Ensures {
 		name := fmt.Sprintf("post#%d", i+1)
 		if e.Label != "" {
 			name = "post#" + e.Label
 		}
 		u.addOblNamed(exit, "post", name, "postcondition: "+e.Src, fn.Pos(), u.evalBoolF(penv, exit, e.Expr))
+	}
+	for i, e := range ct.Checks {
+		name := fmt.Sprintf("post#check.%d", i+1)
+		if e.Label != "" {
+			name = "post#" + e.Label
+		}
+		u.addOblNamed(exit, "post", name, "exit check: "+e.Src, fn.Pos(), u.evalBoolF(penv, exit, e.Expr))
 	}
 	if ic != nil {
 		ie := ienv(exit, u.entry, penv.results)
